@@ -69,6 +69,7 @@ HAND = [
     ("adjacent", RS(r(W("a", "int"), W("b", "re", "[x-z]")), r(W("a", "int"), L("x")), r(L("1y"))), True),
     ("cr-lit", RS(r(L("c/"), W("y"), L("/b")), r(L("c/d/b"))), False),
     ("deep", RS(r(W("a"), L("/"), W("b")), r(W("a"), L("/"), W("b"), L("/"), W("c")), r(L("x/"), W("b")), r(L("x/y/z"))), False),
+    ("path-short", RS(r(L("p"), W("q", "path"), L("e")), r(L("p"), W("q", "path"), L("e/"), W("t")), r(L("px"))), False),
     ("float", RS(r(L("v/"), W("f", "float")), r(L("v/"), W("f", "float"), L("/x")), r(L("v/1")), r(L("v/1.")),), True),
 ]
 
